@@ -46,10 +46,7 @@ func main() {
 			fmt.Fprintln(os.Stderr, "unknown property", *prop)
 			os.Exit(2)
 		}
-		fl := []string{"plain"}
-		if p.Flavours != nil {
-			fl = p.Flavours(*tier)
-		}
+		fl := core.FlavoursFor(p, *tier)
 		fmt.Println(strings.Join(fl, " "))
 	case "batch":
 		p := props.Get(*prop)
